@@ -44,6 +44,7 @@ func vpLoadTape() {
 		vpTape.count = map[string]int{}
 	}
 	vpFailed, vpObserved, vpReached = nil, nil, nil
+	vpActiveKnown, vpKnownFails = nil, nil
 	vpClock = 1_000_000_000
 	vpAuto = false
 }
@@ -107,10 +108,19 @@ func vpAssume(c bool) {
 
 func vpAssert(c bool, id string) {
 	if !c {
+		if len(vpActiveKnown) > 0 {
+			// inside a listed known-finding region: record and go on, as the engine does
+			vpKnownFails = append(vpKnownFails, id)
+			return
+		}
 		vpFailed = append(vpFailed, id)
 		panic(vpAssertFailed{id})
 	}
 }
+
+var vpActiveKnown []string
+var vpKnownFails []string
+var vpListedKnown map[string]bool
 
 type vpAssertFailed struct{ id string }
 
@@ -127,8 +137,20 @@ func vpObserve(name string, v any) {
 	}
 }
 
-func vpKnown(id string, c bool) {}
-func vpKnownClear()             {}
+func vpKnown(id string, c bool) {
+	if vpListedKnown == nil {
+		vpListedKnown = map[string]bool{}
+		for _, k := range strings.Split(os.Getenv("VP_KNOWN"), ",") {
+			if k != "" {
+				vpListedKnown[k] = true
+			}
+		}
+	}
+	if c && vpListedKnown[id] {
+		vpActiveKnown = append(vpActiveKnown, id)
+	}
+}
+func vpKnownClear() { vpActiveKnown = nil }
 
 func vpAnd(a, b bool) bool     { return a && b }
 func vpOr(a, b bool) bool      { return a || b }
